@@ -98,6 +98,18 @@ class Report:
             self.bad(key, msg, detail=detail, **loc)
         return cond
 
+    def borrowed(self, rule_fn, ctx, as_id, why):
+        """Run another property's rule under this property's id: the invariant it decides is one this property relies on."""
+        real = self.rule
+
+        def renamed(rid, desc, floor=0):
+            return real(as_id, f"{why} [= {rid}: {desc}]", floor)
+        self.rule = renamed
+        try:
+            self.guard(rule_fn, ctx)
+        finally:
+            self.rule = real
+
     def guard(self, rule_fn, ctx):
         """Run one rule; a missing anchor is a violation of that rule, other rules still run."""
         try:
